@@ -58,6 +58,12 @@ PRE = [
     ('case_colon', 'switch (a) { case 1:@% }'), ('funcdecl_rbrace', 'function f(){}@%'),
     ('func_body_start', 'function f(){@% }'), ('var_init', 'var v =@%'), ('for_init', 'for (@% ;;) ;'),
     ('for_cond', 'for (;@% ;) ;'), ('for_count', 'for (;;@% ) ;'), ('comma_expr', 'a,@%'),
+    # a '}' in front of which a semicolon was inserted: of a function expression (division follows), of an accessor
+    # body inside an object literal, of a block / declaration (a new statement follows)
+    ('funcexpr_body_asi', 'x = function(){ return 6 }@%'), ('funcexpr_body_asi_call', 'var a = function () { b() }@%'),
+    ('getter_body_asi', 'x = {get a(){ return 1 }}@%'), ('block_asi', '{ a }@%'), ('funcdecl_body_asi', 'function f(){ a }@%'),
+    ('if_block_asi', 'if (a) { b }@%'), ('funcexpr_nested_asi', 'x = function(){ if (a) { b } }@%'),
+    ('object_in_block_asi', '{ x = {} }@%'), ('funcexpr_break_asi', 'x = function(){ for(;;) break }@%'),
     ('catch_rbrace', 'try {} catch (e) {}@%'), ('getter_rbrace', 'x = {get a(){}}@%'), ('paren_ident', '(a)@%'),
 ]
 EMBED = [('called_function_expression', '(function(){ # })()'), ('callback_argument', 'each(xs, function(){ # })'),
